@@ -110,6 +110,28 @@ def build(tier, seed):
         'other branch is 1/0, an unknown function, a circular reference or a Python-level error: no effect on the result; A1 over bool/int/blank', 10,
         lambda a, b, c: f'A1={a!r} B1={b} C1={c}')
 
+    # fractional numbers: TRUE exactly when non-zero (0.5 is TRUE, not truncated to 0)
+    MF = mk({'A1': 1, 'B1': 2, 'C1': 3, 'Z1': '=IF(A1,B1,C1)', 'Z2': '=IF(A1,B1)', 'Z3': '=NOT(A1)', 'Z4': '=AND(A1,TRUE)', 'Z5': '=OR(A1,FALSE)', 'Z6': '=IF(A1-0.75,B1,C1)', 'Z7': '=IF(A1/4,B1,C1)'})
+
+    def h_frac(a: float, b: int, c: int, k: int) -> bool:
+        # k/4 for k in -8..8 are exactly representable; a is any real in (-2, 2)
+        for kk, v in (('B1', b), ('C1', c)):
+            setv(MF, 'Sheet1!' + kk, v)
+        k = concretize(k, -8, 8)
+        for cond in (a, k / 4):
+            setv(MF, 'Sheet1!A1', cond)
+            ev = Evaluator(MF)
+            t = cond != 0
+            if not (valeq(ev.evaluate('Sheet1!Z1'), b if t else c) and (valeq(ev.evaluate('Sheet1!Z2'), b) if t else valeq(ev.evaluate('Sheet1!Z2'), False))
+                    and bool_is(ev.evaluate('Sheet1!Z3'), not t) and bool_is(ev.evaluate('Sheet1!Z4'), t) and bool_is(ev.evaluate('Sheet1!Z5'), t)):
+                return False
+        setv(MF, 'Sheet1!A1', k / 4)
+        ev = Evaluator(MF)
+        return valeq(ev.evaluate('Sheet1!Z6'), b if k != 3 else c) and valeq(ev.evaluate('Sheet1!Z7'), b if k != 0 else c)
+    add('IF[fractional condition]', h_frac, lambda a, b, c, k: -2 < a < 2 and -8 <= k <= 8, [(0.5, 5, 6, 1), (0.0, 5, 6, 0), (-0.25, 5, 6, 3)],
+        'condition a real number in (-2, 2) (floats as reals) and k/4 for k in -8..8, also computed (A1-0.75, A1/4): TRUE exactly when non-zero; IF, NOT, AND, OR agree', 10,
+        lambda a, b, c, k: f'A1={a!r} / {k / 4}, B1={b}, C1={c}')
+
     # nested IF depth 2 with spies on all four leaves
     MN = mk({'A1': 1, 'B1': 1, 'C1': 1, 'Z1': '=IF(A1,IF(B1,SPY(1,10),SPY(2,20)),IF(C1,SPY(3,30),SPY(4,40)))',
              'Z2': '=IF(AND(A1,B1),SPY(1,10),IF(OR(B1,C1),SPY(2,20),SPY(3,30)))', 'Z3': '=IF(NOT(A1),SPY(1,10),SPY(2,20))+IF(B1,SPY(3,1),SPY(4,2))'})
